@@ -89,6 +89,16 @@ CHECKS["C12"] = ("model_checking",
          "TLC checks on all small programs (<= 3 macros, bodies <= 2-4 tokens, sources <= 3-5 tokens, #define/#undef histories <= 3; 1.4 M states quick, 4.8 M thorough) that PPModel with deviations off yields an outcome the standard permits (DR 268 modelled as a set) and obeys the hide discipline (ctx depth, macrodepth returns to 0, every pushed macro un-hidden once). Every enumerated and simulated program (<= 12 macros, 0-4 parameters, variadic, #, nested and multi-line invocations, redefinitions) is run through the real cproc-qbe: -E token stream (H1), and without hook the IL of `int chkN = <invocation>;` against the IL of the rendered expansion; incompatible redefinition must exit 1. H7 traces of these executions and of the preprocess tests must be accepted.",
          "trusted: TLC, rendering glue, cproc's own scanner for the H1 dump; Expand audited against gcc cpp on deterministic cases (disagreement = machinery error); programs with undefined behaviour (directive inside an invocation, unterminated invocation) generated but not judged; ##/#if/#include never generated; failing inputs attributed to a known defect only if the binary equals PPModel(KnownDevs).",
          "DESIGN.md §5 C12")
+CHECKS["C04"] = ("model_checking",
+         "TLA+ refinement FoldModel (transcription of eval.c/expr.c constant folding on the 64-bit carrier) => ConstEval (declarative C semantics) checked by TLC exhaustively over all values at scaled widths; TLC-generated boundary cases at real widths replayed into every folding context and into run-time execution; H2 fold-event trace validation (Trace_Fold.tla)",
+         "The refinement is exhaustive over every operator x all 14x14 arithmetic type pairs x all value pairs at widths char=2, short=3, int=4, long=6 bits (2.3 M cases per configuration) incl. unary, casts, ?:, logical short-circuit, literals by base/suffix, address constants; NeverTraps is an invariant. At real widths TLC emits boundary-value cases in 12 families, each rendered in 13 folding contexts (static and _Thread_local initialisers decoded from the data definition, array bound, negative bound rejected, enumerator, case label read from the ladder, bit-field width, _Alignas, _Static_assert accepted and its negation rejected, constant ?: condition, _Generic type, address constants) on the real cproc-qbe, and the same expression with non-constant operands is executed (il2c): folded = run-time = spec value. Every fold event of the corpus and generated units is judged by the model.",
+         "trusted: TLC, the hand transcription, il2c+gcc for the run-time half; gcc and clang audit every assertion (disagreement = machinery error). Floating point only where results are exact; inexact results, NaN/inf, long double excluded; undefined cases checked for crash-freedom only.",
+         "DESIGN.md §5 C04")
+CHECKS["C19"] = ("fault_enumeration",
+         "TLA+ models of the exit/stdio protocol (Proc.tla), capacity mechanisms (Bounds.tla) and delimiter-skipping loops (Skip.tla, liveness) checked by TLC; every enumerated fault scenario, boundary input and truncated stream replayed into the real binary with ptrace write/read fault injection; sanitizer observation at volume on spec-driven mutants",
+         "Proc.tla, Bounds.tla and Skip.tla are model-checked (safety invariants: exit in {0,1,2}, exit 0 => every emitted byte accepted by the sink, index < capacity, overflow <=> diagnosed; liveness: every skipping loop stops on every stream ending in EOF). All scenarios (k-th write fails/short, /dev/full, closed stdout, file size limit, unreadable/missing/directory input, r-th read fails), all boundary inputs (token lengths around every buffer capacity, 31/32/33 nesting levels, 63/64/65-byte diagnostics, nesting to 10^4) and all truncated streams TLC emits are executed on the ASan+UBSan and plain builds: status, write(2) log, sink bytes, outcome class compared. Memory safety on arbitrary bytes is exploration: Mutate.tla token mutants, byte mutants and truncation at every token boundary of the corpus under ASan+UBSan plus a valgrind sample, findings keyed by crash signature (kind + top in-repo frame).",
+         "trusted: failwrite.c (ptrace injector), glibc's 4096-byte buffering (audited every run), sanitizer runtimes, the crash-signature normaliser. A new bug at an already known (kind, site) signature is masked; no allocator-failure injection; hang limit is CPU time.",
+         "DESIGN.md §5 C19")
 NOT_YET = {}
 
 def main():
